@@ -93,6 +93,11 @@ def gen_cases(chk, tier):
         b_, l, rr, shape = G.gen_nb_triple_bundled(r)
         args = r.choice(G.BUNDLING_ARGS)
         for c in G.NB3_CALLS: cases.append({'call': c, 'base': b_, 'local': l, 'remote': rr, 'args': args, 'src': 'nb3-bundled:' + shape})
+    # conflicting cell insertions at one position where the sides keep different base cells behind it (c13_gen.gen_nb_triple_cellclash)
+    for _ in range(n['nb3b']):
+        b_, l, rr, shape = G.gen_nb_triple_cellclash(r)
+        args = r.choice([None, {'merge_strategy': 'inline'}, {'merge_strategy': 'inline', 'ignore_transients': False}])
+        for c in G.NB3_CALLS: cases.append({'call': c, 'base': b_, 'local': l, 'remote': rr, 'args': args, 'src': 'nb3-cellclash:' + shape})
     # diffs / decision lists from elsewhere (not produced by nbdime's differ, whose dict-level diffs are always key-sorted): hand-built
     # without nbdime, or nbdime's own re-listed -- dict-level entries in arbitrary order at every nesting level, custom diffs edited by
     # a front end -- handed to patch / apply_decisions and to the renderers (c13_gen.gen_foreign_cases, c13_runner.foreign_order)
